@@ -103,7 +103,17 @@ func (ctx *context) GetSessionForRequest(r *http.Request) Session {
 
 func (ctx *context) DeleteSessionForConnection(c net.Conn) {
 	key := ctx.GetKey(c)
-	ctx.Delete(key)
+
+	ctx.mutex.Lock()
+	defer ctx.mutex.Unlock()
+
+	// Sessions are stored by remote address. When a client reconnects from the same
+	// address, the key already refers to the session of the new connection.
+	if s, ok := ctx.storage[key].(Session); ok == true && s.Connection() != c {
+		return
+	}
+
+	delete(ctx.storage, key)
 }
 
 // Returns a list of active connections
